@@ -140,15 +140,28 @@ def judge(rep, c, line, res, ref):
             pass  # P's stdout goes into the pipe and is not read by a builtin / redirected stdin: lost, as in any shell
     out_exp.append("o:Z\n")
     err_exp.append("e:Z\n")
-    got_out = sorted(ln for ln in res.get("stdout", "").splitlines(True) if c["ran"] or not ln.startswith("cicada: "))
-    got_err = sorted(ln for ln in res.get("stderr", "").splitlines(True) if not ln.startswith("cicada:") or ln in err_exp)
-    if not c["ran"]:
-        # a diagnostic about the failed open is expected on stderr; only require that nothing else is missing
-        got_err = [ln for ln in got_err if ln in err_exp]
-    if got_out != sorted(ln for x in out_exp for ln in x.splitlines(True)):
-        return bad("stdout", "stdout of the line was %r, expected lines %r" % (res.get("stdout"), out_exp))
-    if got_err != sorted(ln for x in err_exp for ln in x.splitlines(True)):
-        return bad("stderr", "stderr of the line was %r, expected lines %r" % (res.get("stderr"), err_exp))
+    # The stages of one pipeline and the shell itself write to the same stream concurrently and not line-atomically (a diagnostic
+    # of the shell can be split around a helper's line), so streams are compared as multisets of characters; where a diagnostic
+    # of the shell is expected (failed open) only the helpers' own lines - each written with one write(2) - are required.
+    def chars_of(parts):
+        return sorted("".join(parts))
+    so, se = res.get("stdout", ""), res.get("stderr", "")
+    if c["ran"]:
+        if chars_of([so]) != chars_of(out_exp):
+            return bad("stdout", "stdout of the line was %r, expected lines %r" % (so, out_exp))
+        se_clean = "".join(ln for ln in se.splitlines(True) if not ln.startswith("cicada:") or ln in err_exp)
+        if chars_of([se_clean]) != chars_of(err_exp) and chars_of([se]) != chars_of(err_exp):
+            return bad("stderr", "stderr of the line was %r, expected lines %r" % (se, err_exp))
+    else:
+        for stream, name, exp in ((so, "stdout", out_exp), (se, "stderr", err_exp)):
+            mark = "o:" if name == "stdout" else "e:"
+            for ln in exp:
+                if stream.count(ln) < exp.count(ln):
+                    return bad(name, "%s of the line was %r, expected to contain %r" % (name, stream, ln))
+            helper_lines = [x for x in exp if x.startswith(mark)]
+            import re as _re
+            if len(_re.findall(_re.escape(mark) + r"[A-Z]\n", stream)) != len(helper_lines):
+                return bad(name, "%s of the line was %r, expected exactly the helper lines %r (plus a diagnostic)" % (name, stream, helper_lines))
     return False
 
 
